@@ -1056,7 +1056,7 @@ def frameVariant (tbl : List Entry) : List Bytes → List Bytes → Bool
   | n :: args, n' :: args' =>
     caseVariant n n' &&
     match findEntry tbl (kw n) with
-    | none => true
+    | none => args == args'
     | some (.cmd s) => s.body.variant args args'
     | some (.family _ _ subs _) =>
       match args, args' with
